@@ -185,6 +185,20 @@ static std::string handle(const std::string& cmd, const std::string& args) {
     }
     return read_all_modes(f, (int) to_ll(w.at(1)));
   }
+  if (cmd == "mtz_rec") {        // variant mode key hex(text): the text of the first header record starting with key is replaced
+    std::string key = w.at(2), text = hv::hex_decode(w.at(3));
+    int off = 0;
+    std::memcpy(&off, f.data() + 4, 4);
+    size_t start = off > 0 ? 4 * size_t(off - 1) : 80;
+    for (size_t p = start; p + 80 <= f.size(); p += 80)
+      if (f.compare(p, key.size(), key) == 0) {
+        std::string rec = (key + " " + text).substr(0, 80);
+        rec.resize(80, ' ');
+        f.replace(p, 80, rec);
+        break;
+      }
+    return read_all_modes(f, (int) to_ll(w.at(1)));
+  }
   if (cmd == "mtz_cut") {        // variant offset mode
     size_t off = (size_t) to_ll(w.at(1));
     if (off < f.size()) f.resize(off);
